@@ -28,40 +28,65 @@ Lemma spec_project_eq : forall outs projs mus,
 Proof. reflexivity. Qed.
 
 (* ---------- the domain *)
-Lemma forallb_d3 : forall cs, forallb d3_clause cs = true -> Forall d3c cs.
+Lemma forallb_d10 : forall cs, forallb d10_clause cs = true -> Forall d3c cs.
 Proof.
   induction cs as [|c cs IH]; intros H; constructor; cbn in H; apply andb_prop in H; destruct H as [A B].
-  - apply d3_clause_d3c. exact A.
+  - apply d10_clause_d3c. exact A.
   - apply IH. exact B.
+Qed.
+
+Lemma D10_parts : forall e gs cs outs, D10 e gs cs outs = true ->
+  ks e = true /\ strlit_invalid e = false /\ fix9 e = true /\ fix14 e = true /\ fixoid e = true /\ fixsb e = true /\
+  forallb graph_nodup gs = true /\ Forall d3c cs /\ (exists c cs', cs = c :: cs' /\ c_opt c = false) /\ nodup_str outs = true.
+Proof.
+  intros e gs cs outs H. unfold D10 in H.
+  apply andb_prop in H. destruct H as [H Hout].
+  apply andb_prop in H. destruct H as [H Hfirst].
+  apply andb_prop in H. destruct H as [H Hcl].
+  apply andb_prop in H. destruct H as [H Hg].
+  apply andb_prop in H. destruct H as [H Hsb].
+  apply andb_prop in H. destruct H as [H Hoid].
+  apply andb_prop in H. destruct H as [H H14].
+  apply andb_prop in H. destruct H as [H H9].
+  apply andb_prop in H. destruct H as [Hks Hsl].
+  apply negb_true_iff in Hsl.
+  repeat split; try assumption.
+  - apply forallb_d10. exact Hcl.
+  - destruct cs as [|c cs']; [discriminate|]. exists c, cs'. split; [reflexivity|apply negb_true_iff; exact Hfirst].
+Qed.
+
+(* D3 is the part of D10 without OPTIONAL clauses *)
+Lemma D3_D10 : forall e gs cs outs, D3 e gs cs outs = true ->
+  D10 e gs cs outs = true /\ forallb (fun c => negb (c_opt c)) cs = true.
+Proof.
+  intros e gs cs outs H. unfold D3 in H. unfold D10.
+  apply andb_prop in H. destruct H as [H Hout].
+  apply andb_prop in H. destruct H as [H Hne].
+  apply andb_prop in H. destruct H as [H Hcl].
+  assert (Hcl' : forallb d10_clause cs = true /\ forallb (fun c => negb (c_opt c)) cs = true).
+  { clear -Hcl. induction cs as [|c cs IH]; [split; reflexivity|]. cbn in *. apply andb_prop in Hcl. destruct Hcl as [A B].
+    unfold d3_clause in A. apply andb_prop in A. destruct A as [A1 A2]. destruct (IH B) as [I1 I2]. rewrite A1, A2, I1, I2. split; reflexivity. }
+  destruct Hcl' as [C1 C2]. split; [|exact C2].
+  rewrite H, C1, Hout. cbn. destruct cs as [|c cs']; [discriminate|]. cbn in C2. apply andb_prop in C2. destruct C2 as [C2 _]. rewrite C2. reflexivity.
 Qed.
 
 Lemma D3_parts : forall e gs cs outs, D3 e gs cs outs = true ->
   ks e = true /\ strlit_invalid e = false /\ fix14 e = true /\ fixoid e = true /\ fixsb e = true /\
   forallb graph_nodup gs = true /\ Forall d3c cs /\ cs <> [] /\ nodup_str outs = true.
 Proof.
-  intros e gs cs outs H. unfold D3 in H.
-  apply andb_prop in H. destruct H as [H Hout].
-  apply andb_prop in H. destruct H as [H Hne].
-  apply andb_prop in H. destruct H as [H Hcl].
-  apply andb_prop in H. destruct H as [H Hg].
-  apply andb_prop in H. destruct H as [H Hsb].
-  apply andb_prop in H. destruct H as [H Hoid].
-  apply andb_prop in H. destruct H as [H H14].
-  apply andb_prop in H. destruct H as [Hks Hsl].
-  apply negb_true_iff in Hsl.
-  repeat split; try assumption.
-  - apply forallb_d3. exact Hcl.
-  - destruct cs; [discriminate|discriminate].
+  intros e gs cs outs H. destruct (D3_D10 _ _ _ _ H) as [H10 _].
+  destruct (D10_parts _ _ _ _ H10) as [Hks [Hsl [H9 [H14 [Hoid [Hsb [Hg [HD [[c [cs' [E _]]] Ho]]]]]]]]].
+  repeat split; try assumption. subst. discriminate.
 Qed.
 
-Theorem execute_is_spec_select : forall e gs glo cs outs projs, D3 e gs cs outs = true ->
+(* ---------- C10 / C03: Execute = the specification's sequence of steps, on D10 *)
+Theorem execute_is_spec_select10 : forall e gs glo cs outs projs, D10 e gs cs outs = true ->
   exists bs rows, execute e gs glo cs outs projs = Ok (bs, rows) /\
                   Forall2 orow_equiv rows (spec_select glo gs cs outs projs).
 Proof.
   intros e gs glo cs outs projs H.
-  destruct (D3_parts _ _ _ _ H) as [Hks [Hsl [H14 [Hoid [Hsb [Hg [HD [Hne H0]]]]]]]].
-  destruct cs as [|c cs]; [congruence|].
-  destruct (pattern_is_solutions e gs glo Hks Hsl H14 Hoid Hsb Hg c cs HD) as [t [Et Rt]].
+  destruct (D10_parts _ _ _ _ H) as [Hks [Hsl [H9 [H14 [Hoid [Hsb [Hg [HD [[c [cs' [E Hopt]]] H0]]]]]]]]]. subst cs.
+  destruct (pattern_is_solutions e gs glo Hks Hsl H9 H14 Hoid Hsb Hg c cs' HD Hopt) as [t [Et Rt]].
   unfold execute. rewrite Et. cbn [bind]. unfold spec_select. rewrite spec_project_eq.
   pose proof (fold_proj_equiv projs _ _ Rt) as Rp. unfold project.
   destruct (fold_left apply_proj projs (trows t)) as [|r0 rs0] eqn:Er.
@@ -69,6 +94,19 @@ Proof.
   - eexists _, _. split; [reflexivity|].
     apply (Forall2_map2 orow_equiv _ _ row_equiv _ _ Rp). intros a b Hab. apply out_equiv. exact Hab.
 Qed.
+
+Theorem pattern_is_steps10 : forall e gs glo cs outs, D10 e gs cs outs = true ->
+  exists t, process_pattern e gs glo cs empty_table = Ok t /\ Forall2 row_equiv (trows t) (spec_solutions glo gs cs).
+Proof.
+  intros e gs glo cs outs H.
+  destruct (D10_parts _ _ _ _ H) as [Hks [Hsl [H9 [H14 [Hoid [Hsb [Hg [HD [[c [cs' [E Hopt]]] H0]]]]]]]]]. subst cs.
+  apply (pattern_is_solutions e gs glo Hks Hsl H9 H14 Hoid Hsb Hg c cs' HD Hopt).
+Qed.
+
+Theorem execute_is_spec_select : forall e gs glo cs outs projs, D3 e gs cs outs = true ->
+  exists bs rows, execute e gs glo cs outs projs = Ok (bs, rows) /\
+                  Forall2 orow_equiv rows (spec_select glo gs cs outs projs).
+Proof. intros. apply execute_is_spec_select10. apply D3_D10. assumption. Qed.
 
 (* as multisets *)
 Definition orows_equiv (a b : list (list (option cell))) : Prop :=
@@ -182,9 +220,6 @@ Proof.
   eapply cell_equiv_trans; eauto.
 Qed.
 
-Lemma d3_no_optional : forall cs, Forall d3c cs -> forallb (fun c => negb (c_opt c)) cs = true.
-Proof. intros cs H. induction H; cbn; [reflexivity|]. rewrite (d_opt x H), IHForall. reflexivity. Qed.
-
 Lemma Forall2_in_r : forall {A B} (R : A -> B -> Prop) l l' y, Forall2 R l l' -> In y l' -> exists x, In x l /\ R x y.
 Proof.
   intros A B R l l' y H. induction H; intros Hin; [destruct Hin|].
@@ -198,15 +233,16 @@ Theorem pattern_sound_complete : forall e gs glo cs outs, D3 e gs cs outs = true
     (forall mu, is_solution cs glo gs mu -> exists r, In r (trows t) /\ sub_equiv r mu).
 Proof.
   intros e gs glo cs outs H.
+  destruct (D3_D10 _ _ _ _ H) as [H10 Hno].
   destruct (D3_parts _ _ _ _ H) as [Hks [Hsl [H14 [Hoid [Hsb [Hg [HD [Hne H0]]]]]]]].
+  destruct (pattern_is_steps10 e gs glo cs outs H10) as [t [Et Rt]].
   destruct cs as [|c cs]; [congruence|].
-  destruct (pattern_is_solutions e gs glo Hks Hsl H14 Hoid Hsb Hg c cs HD) as [t [Et Rt]].
   exists t. split; [exact Et|]. split.
   - intros r Hr. destruct (Forall2_in_l _ _ _ _ Rt Hr) as [mu [Hmu Heq]].
-    pose proof (spec_solutions_sound glo gs (c :: cs) mu (d3_no_optional _ HD) Hmu) as Hs.
+    pose proof (spec_solutions_sound glo gs (c :: cs) mu Hno Hmu) as Hs.
     intros c0 Hc0. destruct (Hs c0 Hc0) as [g [t0 [A [B C]]]]. exists g, t0. split; [exact A|]. split; [exact B|].
     eapply clause_match_equiv; eauto.
-  - intros mu Hs. destruct (spec_solutions_complete glo gs (c :: cs) mu (d3_no_optional _ HD) Hs) as [r' [Hr' Sr']].
+  - intros mu Hs. destruct (spec_solutions_complete glo gs (c :: cs) mu Hno Hs) as [r' [Hr' Sr']].
     destruct (Forall2_in_r _ _ _ _ Rt Hr') as [r [Hr Heq]]. exists r. split; [exact Hr|].
     intros k v G. pose proof (get_equiv r r' k Heq) as Ge. rewrite G in Ge. inversion Ge as [|a b Hab Ea Eb]; subst.
     destruct (Sr' k b (eq_sym Eb)) as [w [Gw Cw]]. exists w. split; [exact Gw|]. eapply cell_equiv_trans; eauto.
@@ -226,4 +262,31 @@ Proof.
   destruct (pattern_sound_complete e gs' glo cs' outs' H') as [t' [Et' [S' C']]].
   exists t'. split; [exact Et'|]. intros r Hr.
   destruct (C' r (Himp r (S0 r Hr))) as [r' [Hr' Hs']]. exists r'. split; [exact Hr'|]. split; [exact Hs'|apply S'; exact Hr'].
+Qed.
+
+(* ---------- C10 over whole patterns: appending an OPTIONAL clause to a pattern never removes a row *)
+Lemma Forall2_length : forall {A B} (R : A -> B -> Prop) l l', Forall2 R l l' -> length l = length l'.
+Proof. intros A B R l l' H. induction H; cbn; auto. Qed.
+
+Theorem optional_never_removes_pattern : forall e gs glo cs c outs t1 t2,
+  D10 e gs cs outs = true -> D10 e gs (cs ++ [c]) outs = true -> c_opt c = true ->
+  process_pattern e gs glo cs empty_table = Ok t1 ->
+  process_pattern e gs glo (cs ++ [c]) empty_table = Ok t2 ->
+  (length (trows t1) <= length (trows t2))%nat /\
+  forall r, In r (trows t1) -> exists r', In r' (trows t2) /\ sub_equiv r r'.
+Proof.
+  intros e gs glo cs c outs t1 t2 H1 H2 Hopt E1 E2.
+  destruct (pattern_is_steps10 e gs glo cs outs H1) as [t1' [E1' R1]]. rewrite E1 in E1'. inversion E1'; subst t1'.
+  destruct (pattern_is_steps10 e gs glo (cs ++ [c]) outs H2) as [t2' [E2' R2]]. rewrite E2 in E2'. inversion E2'; subst t2'.
+  unfold spec_solutions in R2. rewrite fold_left_app in R2. cbn [fold_left] in R2. fold (spec_solutions glo gs cs) in R2.
+  destruct (spec_step_optional_never_removes glo gs c (spec_solutions glo gs cs) Hopt) as [Hlen Hall].
+  split.
+  - rewrite (Forall2_length _ _ _ R1), (Forall2_length _ _ _ R2). exact Hlen.
+  - intros r Hr. destruct (Forall2_in_l _ _ _ _ R1 Hr) as [mu [Hmu Hrm]].
+    destruct (Hall mu Hmu) as [x [Hx Hsub]]. destruct (Forall2_in_r _ _ _ _ R2 Hx) as [r' [Hr' Hrx]].
+    exists r'. split; [exact Hr'|]. intros k v G.
+    pose proof (get_equiv r mu k Hrm) as Ge. rewrite G in Ge. inversion Ge as [|a b Hab Ea Eb]; subst.
+    pose proof (Hsub k b (eq_sym Eb)) as Gx.
+    pose proof (get_equiv r' x k Hrx) as Ge'. rewrite Gx in Ge'. destruct (opt_rel_some_r _ _ _ Ge') as [w [Gw Cw]].
+    exists w. split; [exact Gw|]. eapply cell_equiv_trans; [exact Hab|]. rewrite cell_equiv_sym. exact Cw.
 Qed.
